@@ -734,6 +734,7 @@ func genProject(r *rng.R, nPerturb int) (pProject, []string) {
 	p.Config.EnumValidator = r.Chance(1, 3)
 	p.Config.TopLevelEnum = r.Chance(1, 3)
 	p.GroupParams = r.Chance(1, 3)
+	p.RuntimeAlias = r.Chance(1, 6)
 	if p.GroupParams {
 		// (from, to, cursor string, limit int): three names in one declaration followed by another parameter
 		ci := r.Intn(len(p.Controllers))
